@@ -251,6 +251,22 @@ def _stub_dist(lo, hi):
     return Operand()
 
 
+def _same(a, b):
+    """Equality that never calls == on a lazy/random value (their == builds a node or raises)."""
+    if a is b:
+        return True
+    if getattr(a, "_isLazy", False) or getattr(b, "_isLazy", False):
+        return False
+    if isinstance(a, (tuple, list)) and isinstance(b, (tuple, list)):
+        return type(a) is type(b) and len(a) == len(b) and all(_same(x, y) for x, y in zip(a, b))
+    if isinstance(a, dict) and isinstance(b, dict):
+        return list(a) == list(b) and all(_same(a[k], b[k]) for k in a)
+    try:
+        return bool(a == b)
+    except Exception:
+        return False
+
+
 def _inside(x, lo, hi):
     return (lo is None or lo <= x) and (hi is None or x <= hi)
 
@@ -422,7 +438,7 @@ def replay_handler(inputs, clause):
     from scenic.core.distributions import Distribution
 
     op, vt = inputs.get("operator"), inputs.get("valueType")
-    if vt not in ("float", "int") or "c" not in inputs or "x" not in inputs:
+    if vt not in ("float", "int") or "c" not in inputs:
         return None
     ty = float if vt == "float" else int
 
@@ -431,11 +447,14 @@ def replay_handler(inputs, clause):
             super().__init__(valueType=ty)
 
     d = Leaf()
-    c, x = inputs["c"], ty(inputs["x"]) if vt == "int" else float(inputs["x"])
+    c = inputs["c"]
     res = getattr(d, op)(c)
     if res is not d:
-        ok = getattr(res, "operator", None) == op and getattr(res, "object", None) is d and tuple(getattr(res, "operands", ())) == (c,) and not getattr(res, "kwoperands", None)
+        ok = getattr(res, "operator", None) == op and getattr(res, "object", None) is d and _same(tuple(getattr(res, "operands", ())), (c,)) and not getattr(res, "kwoperands", None)
         return None if ok else f"X.{op}({c!r}) built the node operator={getattr(res, 'operator', None)!r} object-is-X={getattr(res, 'object', None) is d} operands={getattr(res, 'operands', None)!r}; expected operator {op!r} over (X; {c!r})"
+    if "x" not in inputs:
+        return None
+    x = ty(inputs["x"]) if vt == "int" else float(inputs["x"])
     try:
         v = _real_op(op, x, c) if op not in ("__pow__", "__rpow__") else (x**c if op == "__pow__" else c**x)
     except ZeroDivisionError:
@@ -666,10 +685,15 @@ def replay_operator_sample(inputs, clause):
             return None
         return f"sampleGiven raised TypeError: {e}"
     fw = [c for c in calls if c[0] == "forward"]
-    if len(fw) != 1 or list(fw[0][1]) != vals or fw[0][2] != kwv:
+    if len(fw) != 1 or not _same(list(fw[0][1]), vals) or not _same(fw[0][2], kwv):
         return f"{op} was applied as {calls!r}; expected one call with positional {vals!r} and keywords {kwv!r}"
+    rv = [c for c in calls if c[0] == "reverse"]
+    if fwd_ni and (len(rv) != 1 or not _same(tuple(rv[0][1]), (first,)) or rv[0][2]):
+        return f"after NotImplemented the reflected operation was called as {rv!r}; expected one call {REVERSE_OF.get(op)}(v(object)) on v(operand0)"
+    if not fwd_ni and rv:
+        return f"reflected operation called although the operation returned a result: {rv!r}"
     want = "R" if not fwd_ni else ("R2" if not rev_ni else None)
-    if res != want:
+    if not _same(res, want):
         return f"sampleGiven returned {res!r}, expected {want!r} (calls {calls!r})"
     return None
 
@@ -696,7 +720,7 @@ def replay_operator_evaluate(inputs, clause):
     res = node.evaluateInner(ctx)  # an exception inside the repository is reported by the runner
     want_ops = tuple(("ctx", f"operand{i}") for i in range(npos))
     want_kw = {n: ("ctx", f"kw:{n}") for n in kwnames}
-    if tuple(res.operands) != want_ops or dict(res.kwoperands) != want_kw or list(res.kwoperands) != kwnames:
+    if not _same(tuple(res.operands), want_ops) or not _same(dict(res.kwoperands), want_kw) or list(res.kwoperands) != kwnames:
         return f"evaluateInner built operands {res.operands!r} / keywords {res.kwoperands!r}; expected {want_ops!r} / {want_kw!r}"
     return None
 
@@ -733,6 +757,7 @@ def register_operator_init(reg):
         as_list = eng.choose(2, "operands given as a list?") == 1
         env.vars.update(operator=op, obj=obj, operands=PList(ops) if as_list else tuple(ops), kwoperands=PDict(list(zip(kwn, kws))), valueType=None)
         env.vars.update(_ops=ops, _kw=list(zip(kwn, kws)))
+        eng.input_syms.append(("op", C.Const(None), op))
 
     def post(I, env, outcome):
         eng = I.eng
@@ -760,6 +785,7 @@ def register_operator_init(reg):
             setup=setup,
             post=post,
             inline=["toDistribution"],
+            replay=replay_operator_init,
             properties=("C05",),
         )
     )
@@ -1004,7 +1030,7 @@ def register_custom_support_site(reg, mod, fn, sup):
     params = dict(subsupports=C.Const(None)) if ex.node.args.vararg is not None and ex.node.args.vararg.arg == "subsupports" else None
     if params is None:
         return  # unknown calling convention: listed as not reached
-    c = C.Contract(target, params=params, setup=setup, post=post, note=f"custom support function of {fn}: 2 arguments", bounded=True, properties=("C05",))
+    c = C.Contract(target, params=params, setup=setup, post=post, replay=make_replay_custom_support(mod, fn, sup), note=f"custom support function of {fn}: 2 arguments", bounded=True, properties=("C05",))
     holder["c"] = c
     reg.add(c, key=f"{target}[support of {fn}]")
 
@@ -1453,6 +1479,8 @@ def register_other_nodes(reg):
         env.vars["self"].fields.update(coordinates=tuple(ks), builder=builder)
         env.vars["value"] = identity_map(I, list(zip(ks, vs)))
         env.vars.update(_vs=vs, _b=b, _calls=calls)
+        eng.input_syms.append(("n", C.Const(None), n))
+        eng.input_syms.append(("builder", C.Const(None), b))
 
     def post_tuple(I, env, outcome):
         eng = I.eng
@@ -1468,7 +1496,7 @@ def register_other_nodes(reg):
         eng.check(f"{name}#ensures.same_container_type", isinstance(res, tuple) if b == 0 else isinstance(res, PList))
         eng.check(f"{name}#ensures.elements_are_the_sampled_coordinates_in_order", items is not None and len(items) == len(vs) and all(x is y for x, y in zip(items, vs)))
 
-    reg.add(C.Contract(f"{D}:TupleDistribution.sampleGiven", params=dict(self=C.Obj(f"{D}:TupleDistribution"), value=C.Const(None)), setup=setup_tuple, post=post_tuple, inline=["DefaultIdentityDict.__getitem__"], properties=("C05",), note="0 to 3 coordinates", bounded=True))
+    reg.add(C.Contract(f"{D}:TupleDistribution.sampleGiven", params=dict(self=C.Obj(f"{D}:TupleDistribution"), value=C.Const(None)), setup=setup_tuple, post=post_tuple, inline=["DefaultIdentityDict.__getitem__"], replay=replay_tuple_sample, properties=("C05",), note="0 to 3 coordinates", bounded=True))
 
     def setup_slice(I, env):
         ks, vs = keys_and_values(3, "part")
@@ -1677,7 +1705,7 @@ def make_replay_call_node(cn, is_method):
         node = d.MethodDistribution(fn, fixed, tuple(args), kw, valueType=object) if is_method else d.FunctionDistribution(fn, tuple(args), kw, valueType=object)
         res = node.sampleGiven(m)
         want = ([fixed] if is_method else []) + exp
-        if res != "R" or len(calls) != 1 or list(calls[0][0]) != want or calls[0][1] != kwexp:
+        if not _same(res, "R") or len(calls) != 1 or not _same(list(calls[0][0]), want) or not _same(calls[0][1], kwexp):
             return f"{cn}.sampleGiven called the function as {calls!r} (result {res!r}); expected one call with {want!r}, {kwexp!r}"
         return None
 
@@ -1881,7 +1909,7 @@ def register_lazy_layer(reg):
         else:
             eng.check(f"{name}#ensures.other_values_are_returned_unchanged", outcome[1] is v["value"] and len(v["_calls"]) == 0)
 
-    reg.add(C.Contract(f"{L}:valueInContext", params=dict(value=C.Const(None), context=C.Const(None)), setup=setup_vic, post=post_vic, properties=("C05",)), key=f"{L}:valueInContext[verify]")
+    reg.add(C.Contract(f"{L}:valueInContext", params=dict(value=C.Const(None), context=C.Const(None)), setup=setup_vic, post=post_vic, replay=replay_value_in_context, properties=("C05",)), key=f"{L}:valueInContext[verify]")
 
     # ---------------------------------------------------------------- LazilyEvaluable.evaluateIn (the per-object cache)
     def setup_ev(I, env):
@@ -1929,6 +1957,7 @@ def register_lazy_layer(reg):
             post=post_ev,
             raises=[C.Raises("AssertionError", mode="may")],
             inline=["DefaultIdentityDict.__getitem__", "DefaultIdentityDict.__setitem__", "DefaultIdentityDict.__contains__"],
+            replay=replay_evaluate_in,
             properties=("C05",),
         )
     )
@@ -1957,7 +1986,7 @@ def replay_delayed_operator(inputs, clause):
     ctx = LazilyEvaluable.makeContext(a=1, b=2)
     val = res.evaluateIn(ctx)
     want = () if op == "__neg__" else ("ctx(arg0)",)
-    if val != "R" or len(calls) != 1 or tuple(calls[0][0]) != want or set(res._requiredProperties) != ({"a"} | ({"b"} if args else set())):
+    if not _same(val, "R") or len(calls) != 1 or not _same(tuple(calls[0][0]), want) or set(res._requiredProperties) != ({"a"} | ({"b"} if args else set())):
         return f"delayed {op}: value {val!r}, calls {calls!r}, required properties {res._requiredProperties!r}"
     return None
 
@@ -1984,8 +2013,112 @@ def make_replay_delayed_call(is_method):
         ctx = LazilyEvaluable.makeContext(**{p: 1 for p in props})
         val = res.evaluateIn(ctx)
         wantkw = {n: "ctx(kw:%s)" % n for n in kwn}
-        if val != "R" or len(calls) != 1 or tuple(calls[0][0]) != ("ctx(arg0)", "plain") or calls[0][1] != wantkw or set(res._requiredProperties) != props:
+        if not _same(val, "R") or len(calls) != 1 or not _same(tuple(calls[0][0]), ("ctx(arg0)", "plain")) or not _same(calls[0][1], wantkw) or set(res._requiredProperties) != props:
             return f"delayed call: value {val!r}, calls {calls!r} (expected ('ctx(arg0)', 'plain'), {wantkw!r}), required properties {res._requiredProperties!r} (expected {sorted(props)!r})"
         return None
 
     return replay
+
+
+def replay_tuple_sample(inputs, clause):
+    import collections
+
+    from scenic.core.distributions import Distribution, TupleDistribution
+    from scenic.core.utils import DefaultIdentityDict
+
+    class Key(Distribution):
+        def __init__(self):
+            super().__init__()
+
+    n, b = int(inputs.get("n", 3)), int(inputs.get("builder", 0))
+    keys = [Key() for _ in range(n)]
+    m = DefaultIdentityDict()
+    for i, k in enumerate(keys):
+        m[k] = f"v{i}"
+    P = collections.namedtuple("P", [f"f{i}" for i in range(n)])
+    builder = [tuple, list, P._make][b]
+    res = TupleDistribution(*keys, builder=builder).sampleGiven(m)
+    want = builder(f"v{i}" for i in range(n))
+    if type(res) is not type(want) or list(res) != list(want):
+        return f"TupleDistribution.sampleGiven built {res!r}, expected {want!r}"
+    return None
+
+
+def make_replay_custom_support(mod, fn, sup):
+    def replay(inputs, clause):
+        import importlib
+
+        from scenic.core.distributions import underlyingFunction
+
+        m = importlib.import_module(mod)
+        ivs = _ivs_from(inputs, "arg")
+        pts = [inputs.get(f"x{i}") for i in range(len(ivs))]
+        lo, hi = getattr(m, sup)(*ivs)
+        if any(p is None for p in pts) or not all(_inside(p, *iv) for p, iv in zip(pts, ivs)):
+            return None
+        v = underlyingFunction(getattr(m, fn))(*[float(p) for p in pts])
+        if (lo is not None and v < lo - 1e-9) or (hi is not None and v > hi + 1e-9):
+            return f"{mod}.{sup}{tuple(ivs)} = ({lo}, {hi}) but {fn}{tuple(pts)} = {v}"
+        return None
+
+    return replay
+
+
+def replay_evaluate_in(inputs, clause):
+    from scenic.core.lazy_eval import DelayedArgument, LazilyEvaluable
+
+    calls = []
+    d = DelayedArgument(("a",), lambda ctx: (calls.append(ctx), "evaluated")[1], _internal=True)
+    ctx = LazilyEvaluable.makeContext(a=1)
+    r1 = d.evaluateIn(ctx)
+    r2 = d.evaluateIn(ctx)
+    if r1 != "evaluated" or r2 != "evaluated" or len(calls) != 1 or calls[0] is not ctx:
+        return f"a delayed value evaluated twice in the same context ran its evaluation {len(calls)} times (results {r1!r}, {r2!r}); expected exactly one evaluation, cached"
+    return None
+
+
+def replay_value_in_context(inputs, clause):
+    from scenic.core.lazy_eval import DelayedArgument, LazilyEvaluable, valueInContext
+
+    ctx = LazilyEvaluable.makeContext(a=1)
+    d = DelayedArgument(("a",), lambda c: "evaluated", _internal=True)
+    if valueInContext(d, ctx) != "evaluated":
+        return "valueInContext of a delayed argument is not its evaluation in the context"
+    calls = []
+
+    class Settled(LazilyEvaluable):
+        def __init__(self):
+            super().__init__(())
+
+        def evaluateIn(self, context):
+            calls.append(context)
+            return "re-evaluated"
+
+    s = Settled()
+    for plain in (s, 3.5, "text", None):
+        r = valueInContext(plain, ctx)
+        if r is not plain:
+            return f"valueInContext({plain!r}) returned {r!r}; a value that needs no lazy evaluation must be returned unchanged"
+    return None
+
+
+def replay_operator_init(inputs, clause):
+    from scenic.core.distributions import Distribution, OperatorDistribution
+
+    class Key(Distribution):
+        def __init__(self):
+            super().__init__()
+
+    op = inputs.get("op", "__add__")
+    npos = 0 if op == "__neg__" else (2 if op == "__call__" else 1)
+    kwn = ["beta", "alpha"] if op == "__call__" else []
+    obj, ops, kws = Key(), [Key() for _ in range(npos)], {n: Key() for n in kwn}
+    node = OperatorDistribution(op, obj, list(ops), dict(kws), valueType=object)
+    if node.operator != op or node.object is not obj or not _same(tuple(node.operands), tuple(ops)) or not _same(dict(node.kwoperands), kws):
+        return f"OperatorDistribution({op!r}, ...) recorded operator={node.operator!r}, operands={node.operands!r}, kwoperands={node.kwoperands!r}"
+    if node.reverse != REFLECTED.get(op):
+        return f"OperatorDistribution({op!r}, ...).reverse = {node.reverse!r}; Python's reflected method of {op} is {REFLECTED.get(op)!r}"
+    want = [obj] + ops + [kws[n] for n in kwn]
+    if not _same(list(node._dependencies), want):
+        return f"dependencies {node._dependencies!r}, expected object, operands, keyword operands in order"
+    return None
